@@ -1,8 +1,8 @@
 package main
 
 import (
-	"go/constant"
 	"fmt"
+	"go/constant"
 	"go/token"
 	"go/types"
 	"os"
@@ -18,18 +18,19 @@ import (
 const modulePath = "github.com/risor-io/risor"
 
 type Program struct {
-	prog         *ssa.Program
-	pkgs         []*packages.Package
-	CS           *ContractSet
-	fnByKey      map[string]*ssa.Function
-	anonByKey    map[string]*ssa.Function
-	allTypesPkgs []*types.Package
-	typesByPath  map[string]*types.Package
-	errs         []string
-	fset         *token.FileSet
-	repo         string
-	declPkgOf    map[string]string // contract key -> declaring package path
-	overlayUsed  []string
+	prog           *ssa.Program
+	pkgs           []*packages.Package
+	CS             *ContractSet
+	fnByKey        map[string]*ssa.Function
+	anonByKey      map[string]*ssa.Function
+	allTypesPkgs   []*types.Package
+	typesByPath    map[string]*types.Package
+	errs           []string
+	fset           *token.FileSet
+	repo           string
+	declPkgOf      map[string]string // contract key -> declaring package path
+	overlayUsed    []string
+	overlayDiffers []string
 }
 
 func (p *Program) contractError(format string, args ...any) {
@@ -66,14 +67,19 @@ func loadProgram(repo, contractsDir string, patterns []string) (*Program, error)
 		}
 		rel, _ := filepath.Rel(contractsDir, path)
 		target := filepath.Join(repo, rel)
-		if _, err := os.Stat(target); err == nil {
-			return nil // repository copy wins
-		}
 		src, err := os.ReadFile(path)
-		if err == nil {
-			overlay[target] = src
-			p.overlayUsed = append(p.overlayUsed, rel)
+		if err != nil {
+			return nil
 		}
+		// The contract files are maintained in contractsDir and mirrored into the repository by a tag-guarded hook
+		// commit. The maintained copy is what is checked; a repository copy that differs (or is missing) is noted.
+		if have, err := os.ReadFile(target); err == nil && string(have) == string(src) {
+			return nil // identical copy in the repository: load it from there
+		} else if err == nil {
+			p.overlayDiffers = append(p.overlayDiffers, rel)
+		}
+		overlay[target] = src
+		p.overlayUsed = append(p.overlayUsed, rel)
 		return nil
 	})
 	cfg := &packages.Config{
